@@ -165,6 +165,9 @@ package kvstore
 //@   ensures  #others [C11]: forall h uint64, j int {k.tables[j].has(h)} :: 0 <= j && j < len(k.tables) && (h != hkey || j == len(k.tables) - 1) ==>
 //@                k.tables[j].has(h) == old(k.tables[j].has(h)) && (k.tables[j].has(h) ==> k.tables[j].off(h) == old(k.tables[j].off(h)))
 //@   ensures  #same_tables: len(k.tables) == old(len(k.tables)) && forall j int {k.tables[j]} :: 0 <= j && j < len(k.tables) ==> k.tables[j] == old(k.tables[j])
+//@   ensures  #last_kept [C11]: len(k.tables) >= 1 ==> forall h uint64 {k.tables[len(k.tables)-1].keyOf(h)} {k.tables[len(k.tables)-1].valOf(h)} {k.tables[len(k.tables)-1].ttlOf(h)} {k.tables[len(k.tables)-1].tsOf(h)} ::
+//@                k.tables[len(k.tables)-1].keyOf(h) == old(k.tables[len(k.tables)-1].keyOf(h)) && k.tables[len(k.tables)-1].valOf(h) == old(k.tables[len(k.tables)-1].valOf(h)) &&
+//@                k.tables[len(k.tables)-1].ttlOf(h) == old(k.tables[len(k.tables)-1].ttlOf(h)) && k.tables[len(k.tables)-1].tsOf(h) == old(k.tables[len(k.tables)-1].tsOf(h))
 //@   ensures  #uniq_others [C11]: forall h uint64, i int, j int {k.tables[i].has(h), k.tables[j].has(h)} :: h != hkey && 0 <= i && i < j && j < len(k.tables) ==> !(k.tables[i].has(h) && k.tables[j].has(h))
 //@   ensures  #uniq [C11]: forall h uint64, i int, j int {k.tables[i].has(h), k.tables[j].has(h)} :: 0 <= i && i < j && j < len(k.tables) ==> !(k.tables[i].has(h) && k.tables[j].has(h))
 //@   ensures  #tables_ok: (forall i int {k.tables[i]} :: 0 <= i && i < len(k.tables) ==> k.tables[i] != nil && k.tables[i].inv() && k.tables[i].allocated == k.tableSize)
@@ -179,6 +182,11 @@ package kvstore
 //@                      k.tables[j].has(h) == old(k.tables[j].has(h)) && (k.tables[j].has(h) ==> k.tables[j].off(h) == old(k.tables[j].off(h)))) &&
 //@                (forall h uint64, j int {k.tables[j].has(h)} :: 0 <= j && j < len(k.tables) && (j == len(k.tables) - 1 || j <= i) ==>
 //@                      k.tables[j].has(h) == old(k.tables[j].has(h)) && (k.tables[j].has(h) ==> k.tables[j].off(h) == old(k.tables[j].off(h))))
+//@   loop 0 invariant #maps_distinct: forall a int, b int {k.tables[a], k.tables[b]} :: 0 <= a && a < len(k.tables) && 0 <= b && b < len(k.tables) && a != b ==> k.tables[a].hkeys != k.tables[b].hkeys
+//@   loop 0 invariant #only_removes: forall h uint64, j int {k.tables[j].has(h)} :: 0 <= j && j < len(k.tables) && k.tables[j].has(h) ==> old(k.tables[j].has(h))
+//@   loop 0 invariant #last_kept: len(k.tables) >= 1 ==> forall h uint64 {k.tables[len(k.tables)-1].keyOf(h)} {k.tables[len(k.tables)-1].valOf(h)} {k.tables[len(k.tables)-1].ttlOf(h)} {k.tables[len(k.tables)-1].tsOf(h)} ::
+//@                k.tables[len(k.tables)-1].keyOf(h) == old(k.tables[len(k.tables)-1].keyOf(h)) && k.tables[len(k.tables)-1].valOf(h) == old(k.tables[len(k.tables)-1].valOf(h)) &&
+//@                k.tables[len(k.tables)-1].ttlOf(h) == old(k.tables[len(k.tables)-1].ttlOf(h)) && k.tables[len(k.tables)-1].tsOf(h) == old(k.tables[len(k.tables)-1].tsOf(h))
 //@   loop 0 decreases i + 2
 
 // fits: an entry of n bytes fits the active table right now.
@@ -199,7 +207,7 @@ package kvstore
 //@                k.tables[len(k.tables)-1].ttlOf(hkey) == value.ttl && k.tables[len(k.tables)-1].tsOf(hkey) == value.timestamp
 //@   ensures  #unique [C11]: result == nil ==> forall j int {k.tables[j]} :: 0 <= j && j < len(k.tables) - 1 ==> !k.tables[j].has(hkey)
 //@   ensures  #inv_out: k.inv()
-//@   loop 0 invariant #retry: k.inv() && len(k.tables) >= 1 &&
+//@   loop 0 invariant #retry: k.inv() && len(k.tables) >= 1 && 29 + len(value.key) + len(value.value) < k.tableSize &&
 //@                (forall i int {k.tables[i]} :: 0 <= i && i < len(k.tables) ==> base(value.value) != base(k.tables[i].memory)) &&
 //@                bstr(value.value) == old(bstr(value.value))
 //@   loop 0 invariant #size_fits: 29 + len(value.key) + len(value.value) < k.tableSize
@@ -217,7 +225,7 @@ package kvstore
 //@   ensures  #stored [C11 C04]: result == nil ==> len(k.tables) >= 1 && k.tables[len(k.tables)-1].has(hkey) && k.tables[len(k.tables)-1].size(hkey) == len(value)
 //@   ensures  #unique [C11]: result == nil ==> forall j int {k.tables[j]} :: 0 <= j && j < len(k.tables) - 1 ==> !k.tables[j].has(hkey)
 //@   ensures  #inv_out: k.inv()
-//@   loop 0 invariant #retry: k.inv() && len(k.tables) >= 1 && entry.wfAt(elems(value), off(value), len(value)) &&
+//@   loop 0 invariant #retry: k.inv() && len(k.tables) >= 1 && len(value) < k.tableSize && entry.wfAt(elems(value), off(value), len(value)) &&
 //@                (forall i int {k.tables[i]} :: 0 <= i && i < len(k.tables) ==> base(value) != base(k.tables[i].memory))
 //@   loop 0 invariant #size_fits: len(value) < k.tableSize
 //@   loop 0 decreases ite(k.fits(len(value)), 0, 1)
